@@ -68,7 +68,44 @@ fn diagnose(sc: &Value) -> Value {
             })
         })
         .collect();
-    json!({"returned_some": res.is_some(), "diagnostics": list})
+    // the file's parse errors with LSP positions computed HERE (plain scan, UTF-16 units; LF, CRLF, CR end a line),
+    // independently of LineIndex / LuaDocument
+    let text = sc["files"]
+        .as_array()
+        .and_then(|fs| fs.iter().find(|f| f["name"].as_str() == Some(want)))
+        .and_then(|f| f["text"].as_str())
+        .unwrap_or("")
+        .to_string();
+    let pos = |off: usize| -> (u32, u32) {
+        let (mut line, mut col) = (0u32, 0u32);
+        let bytes = text.as_bytes();
+        let mut i = 0usize;
+        for ch in text.chars() {
+            if i >= off {
+                break;
+            }
+            let w = ch.len_utf8();
+            if ch == '\n' || (ch == '\r' && bytes.get(i + 1) != Some(&b'\n')) {
+                line += 1;
+                col = 0;
+            } else {
+                col += ch.len_utf16() as u32;
+            }
+            i += w;
+        }
+        (line, col)
+    };
+    let tree = emmylua_parser::LuaParser::parse(&text, emmylua_parser::ParserConfig::default());
+    let perrs: Vec<Value> = tree
+        .get_errors()
+        .iter()
+        .map(|e| {
+            let (s, t) = (u32::from(e.range.start()) as usize, u32::from(e.range.end()) as usize);
+            let (ps, pe) = (pos(s), pos(t));
+            json!({"kind": format!("{:?}", e.kind), "start": [ps.0, ps.1], "end": [pe.0, pe.1], "message": e.message})
+        })
+        .collect();
+    json!({"returned_some": res.is_some(), "diagnostics": list, "parse_errors": perrs})
 }
 
 fn merge(a: &mut Value, b: &Value) {
